@@ -4,7 +4,8 @@ package harness
 // byte, across the sizes at which buffers are sized or grown (2^8 ... 2^14; x/text's
 // own buffer starts at 4096 bytes). A key is 'a' repeated n times followed by m Han
 // characters: five sort-key bytes per 'a', seven per Han character, so five
-// consecutive m reach every residue. Every key is inserted, looked up, and the scans
+// consecutive m reach every residue. A second group takes the byte length of the
+// original string across 2^16 and the sort-key length across 2^15 and 2^16. Every key is inserted, looked up, and the scans
 // must be in the collator's order with the original strings.
 
 import (
@@ -33,6 +34,18 @@ func keyLengthOps(window int) []Op {
 				}
 			}
 		}
+	}
+	// the byte length of the original string across 2^16 (a length field of the leaf
+	// may be narrower than the sort key's), and the sort-key length across 2^15 and 2^16
+	for _, c := range []struct{ centre, per int }{{65536, 1}, {(32768 - 4) / 5, 1}, {(65536 - 4) / 5, 1}} {
+		for n := c.centre - 2; n <= c.centre+2; n++ {
+			for m := 0; m <= 2; m++ {
+				v++
+				k := []byte(strings.Repeat("a", n-3*m) + strings.Repeat("漢", m))
+				ops = append(ops, Op{Op: "insert", K: k, V: v}, Op{Op: "search", K: k})
+			}
+		}
+		ops = append(ops, Op{Op: "scan"}, Op{Op: "extremes"})
 	}
 	return append(ops, Op{Op: "scan"}, Op{Op: "sweep"}, Op{Op: "extremes"}, Op{Op: "sizecheck"})
 }
@@ -71,7 +84,7 @@ func replayKeyLengths(tr *Trace) error {
 
 func runKeyLengths(t *testing.T, id string) {
 	stats.Property = id
-	stats.Rule = "sort-key length sweep: collation keys ('a' repeated n times plus 0..4 Han characters) whose sort-key lengths cover every value in windows around 2^8 .. 2^14 are inserted and looked up, with ordered scans, extremes and a final sweep against the model; non-trivial = every case; distinct by (kind, window)"
+	stats.Rule = "sort-key length sweep: collation keys ('a' repeated n times plus 0..4 Han characters) whose sort-key lengths cover every value in windows around 2^8 .. 2^14, plus keys whose original byte length crosses 2^16 and whose sort-key length crosses 2^15 and 2^16, are inserted and looked up, with ordered scans, extremes and a final sweep against the model; non-trivial = every case; distinct by (kind, window)"
 	rapid.Check(t, func(rt *rapid.T) {
 		kn := "coll:" + pick(rt, []string{"und", "und", "de", "en-num"}, "cfg") + ":" + pick(rt, []string{"string", "bytes"}, "kt")
 		if drawInt(rt, 0, 3, "runes") == 0 {
